@@ -37,6 +37,7 @@ type env struct {
 	byName    map[string]int
 	child     int
 	randChild int
+	sigSeen   map[string]int
 }
 
 // classify maps a failure of the real decoder to a finding signature: a narrow predicate on the kind of
@@ -120,7 +121,7 @@ func (e *env) run(family string, ti int, in codecx.Input) {
 	risky := pred == "fail diverge" || pred == "fail depth" || pred == "fail alloc" || (e.d == nil && strings.HasPrefix(family, "risky"))
 	if risky && !strings.HasPrefix(family, "risky") && family != "corpus" && family != "replay" {
 		// randomly generated cases that need a child process: a bounded number per run (each costs up to the timeout)
-		if e.randChild >= e.o.N(25, 1500) {
+		if e.randChild >= e.o.N(25, 120) {
 			e.r.Hit("skipped:child-budget")
 			return
 		}
@@ -219,10 +220,16 @@ func (e *env) judge(c, pred string, o codecx.Outcome, inLen int, family string) 
 	if strings.HasPrefix(res, "alloc-bound") {
 		detail = fmt.Sprintf("Decode of %d bytes allocated %d bytes (bound 64·|b| + 64 MiB)", inLen, o.Alloc)
 	}
-	e.r.Fail(trunc(c, 2000), sig, detail)
 	if sig != "" {
 		e.r.Confirm(sig, trunc(c, 200)+": "+detail)
+		// at most three recorded failures per known signature: they must not crowd out an unclassified one (the result keeps 50)
+		e.sigSeen[sig]++
+		if e.sigSeen[sig] > 3 {
+			e.r.Hit("oracle-fail:" + sig)
+			return
+		}
 	}
+	e.r.Fail(trunc(c, 2000), sig, detail)
 }
 
 func splitCase(c string) (ty, hx string) {
@@ -319,7 +326,7 @@ func (e *env) directed() {
 // hostile Variant headers: every type id x array flags x hostile lengths
 func (e *env) variantGrid() {
 	v := e.target("*ua.Variant")
-	n := e.o.N(600, 30000)
+	n := e.o.N(600, 8000)
 	for i := 0; i < n; i++ {
 		mask := byte(e.rnd.Intn(64))
 		if e.rnd.Chance(85) {
@@ -352,7 +359,7 @@ func (e *env) variantGrid() {
 
 // mutations of valid encodings of every kind of type
 func (e *env) mutations(g *codecx.Gen) {
-	n := e.o.N(3000, 400000)
+	n := e.o.N(3000, 40000)
 	for i := 0; i < n; i++ {
 		ti := e.rnd.Intn(len(e.targets))
 		if e.rnd.Chance(40) {
@@ -386,7 +393,7 @@ func encodeQuiet(v interface{}) (b []byte, err error) {
 
 // short random byte strings against the hand-written codecs
 func (e *env) random() {
-	n := e.o.N(3000, 300000)
+	n := e.o.N(3000, 40000)
 	for i := 0; i < n; i++ {
 		ti := e.rnd.Intn(9)
 		b := e.rnd.Bytes(e.rnd.Intn(14))
@@ -424,7 +431,7 @@ func main() {
 	}
 	defer d.Close()
 	rnd := h.NewRand(o.Seed)
-	e := &env{o: o, r: r, d: d, rnd: rnd, targets: codecx.Targets(), byName: map[string]int{}}
+	e := &env{o: o, r: r, d: d, rnd: rnd, targets: codecx.Targets(), byName: map[string]int{}, sigSeen: map[string]int{}}
 	for i, t := range e.targets {
 		e.byName[t.Name] = i
 	}
